@@ -39,7 +39,7 @@ def main():
                     "design_ref": f"DESIGN.md section 5, {pid}",
                 },
                 "level_note": m.LEVEL_NOTE,
-                "technique": m.TECHNIQUE,
+                "technique": "static analysis (stdlib ast; no code of the repository is executed, no solver) over a canonicalised program (semantics-preserving normal forms, alpha-equivalence by def-use webs, inlining of helpers unknown to the reference): " + m.TECHNIQUE,
             }
         )
     man = {
